@@ -11,6 +11,48 @@ import FairModel.Lemmas.ThresholdFit
 namespace C04
 open Threshold ThresholdGen
 
+/-! ### Tie to `_tradeoff_curve_utilities.py`: what the definitions LIFTED on every run (`Generated/TradeoffSrc.lean`)
+have to say for the geometry below.  `Model/Threshold.lean` is defined over the lifted definitions and every lemma file
+goes through these statements (`Lemmas/ThresholdSrc.lean`), so an edit of the source breaks the matching one. -/
+
+/-- hull: `r1` is dropped iff `(r1.y - r0.y) * (r2.x - r0.x) <= (r2.y - r0.y) * (r1.x - r0.x)`, i.e. iff `r1` is on or
+    below the chord `r0 → r2`; collinear and duplicate points ARE dropped (`<=`, not `<`) -/
+theorem src_hull_test (r0 r1 r2 : Pt) : dropTest r0 r1 r2 = true ↔ cross r0 r2 r1 ≤ 0 := dropTest_iff r0 r1 r2
+
+/-- hull loop: `while len(selected) >= 2`, `r1 = selected[-1]`, `r0 = selected[-2]`, `selected.pop()` drops `r1` -/
+theorem src_hull_loop : TradeoffSrc.hullMinLen = 2 ∧ TradeoffSrc.hullR1Back = 1 ∧ TradeoffSrc.hullR0Back = 2 ∧
+    TradeoffSrc.hullPopsLast = true := src_hull_loop_shape
+
+/-- the points are sorted by `["x", "y"]`, ascending, before the hull is taken; scores by decreasing score -/
+theorem src_sort_orders (a b : Pt) (y r : Row) :
+    (lexLt a b = true ↔ (a.x < b.x ∨ (a.x = b.x ∧ a.y < b.y))) ∧ (scoreBefore y r = true ↔ y.score < r.score) :=
+  ⟨src_lexLt a b, src_scoreBefore y r⟩
+
+/-- threshold candidates: `+inf` for the initial point, the midpoint between consecutive distinct scores, `-inf` last -/
+theorem src_thresholds (t s : Rat) :
+    thrInitial = Thr.pinf ∧ thrSentinel = Thr.ninf ∧ TradeoffSrc.midThreshold t s = (t + s) / 2 :=
+  ⟨src_thrInitial, src_thrSentinel, src_midThreshold t s⟩
+
+/-- interpolation index: `searchsorted(side="right") - 1`, and one more step to the left when a grid value with index
+    ≥ 1 equals the vertex found -/
+theorem src_interp_index (xs : List Rat) (i : Nat) (g : Rat) :
+    interpIndex xs i g =
+      (if countLE xs g = 0 then none else
+        if i ≥ 1 ∧ xs[countLE xs g - 1]? = some g then
+          (if countLE xs g - 1 = 0 then none else some (countLE xs g - 1 - 1))
+        else some (countLE xs g - 1)) := src_interpIndex xs i g
+
+/-- interpolation weights: `p0 = (x_next - g) / (x_next - x_cur)` goes with the LEFT vertex' operation and y,
+    `p1 = 1 - p0` with the right one -/
+theorem src_interp_weights (xcur xnext ycur ynext g : Rat) :
+    TradeoffSrc.interpP0 xcur xnext g = (xnext - g) / (xnext - xcur) ∧
+    TradeoffSrc.interpP1 xcur xnext g = 1 - (xnext - g) / (xnext - xcur) ∧
+    TradeoffSrc.interpY xcur xnext ycur ynext g =
+      (xnext - g) / (xnext - xcur) * ycur + (1 - (xnext - g) / (xnext - xcur)) * ynext ∧
+    TradeoffSrc.op0FromNext = false ∧ TradeoffSrc.op1FromNext = true :=
+  ⟨src_interpP0 xcur xnext g, src_interpP1 xcur xnext g, src_interpY xcur xnext ycur ynext g, src_interpOps.1,
+   src_interpOps.2⟩
+
 /-- (a) every METRIC_DICT entry is affine in the confusion counts for a fixed number of positives and negatives -/
 theorem metric_affine (m : Metric) (a b : Rat) (A B : CM) (hab : a + b = 1)
     (hp : A.positives = B.positives) (hn : A.negatives = B.negatives) :
